@@ -265,10 +265,13 @@ prop("C07", "exploration",
      LIFE_RULE + "Three independent observers per engine life: (1) the descriptor ledger fed by the syscall shim (every accept4/socket/dup/epoll_create1/eventfd/close/read/write/epoll_ctl the framework issues): any "
      "operation on a number it has already closed, any touch of a descriptor the harness declared its own, any EBADF, and every descriptor still owned after Run returned (with creation site and whether it "
      "was ever registered in epoll); (2) /proc/self/fd identity snapshots before the engine started and after Run returned, and the Unix socket file; (3) three canary goroutines that keep opening pipes on "
-     "just-freed numbers and verify inode and content. distinct_nontrivial = distinct (configuration class, close plan, error kind) and (configuration class, shutdown source, moment) tuples observed",
+     "just-freed numbers and verify inode and content; thorough adds a fourth that does not depend on the rewriting at all: the plain build under strace -f, every call failing with EBADF "
+     "is a call on a number that is not open. distinct_nontrivial = distinct (configuration class, close plan, error kind) and (configuration class, shutdown source, moment) tuples observed",
      [
          {"harness": "eng", "flavour": "shim", "args": {"quick": ["--mode", "c07", "--n", "14"], "thorough": ["--mode", "c07"]}, "timeout": {"quick": 900, "thorough": 3400}},
          {"harness": "eng", "flavour": "shim", "tags": ["poll_opt"], "args": {"quick": ["--mode", "c07", "--n", "5"], "thorough": ["--mode", "c07", "--n", "60"]}, "timeout": {"quick": 900, "thorough": 3400}},
+         {"harness": "eng", "flavour": "plain", "tiers": ["thorough"], "wrap": ["strace", "-f", "-q", "-e", "trace=desc,network", "-o", "{scratch}/strace-{idx}.log"], "post": "strace_ebadf",
+          "args": {"thorough": ["--mode", "c07", "--n", "10"]}, "timeout": {"thorough": 3400}},
      ],
      "Descriptor ledger over a syscall shim + process descriptor table + canaries, during histories that close connections from every cause including from inside callbacks.",
      "ledger rules are one-sided (they can miss, they cannot false-alarm); a use-after-close is only visible if it executes",
